@@ -380,6 +380,14 @@ def gen_rest_ticks(shard):
             comp = {"tracks": [{"name": None, "instrument": None, "bars": [Z.bar_recipe(pat, meter=(beats, 4))]}]}
             yield {"comp": comp, "bpm": 120, "repeat": 0, "apis": ["bar", "track"]}
     if 1 in shard:
+        # values so short that they round to no tick at all (a 1024th note: 288/1024 -> 0): the note starts and ends on
+        # the same tick and nothing after it moves
+        for pat in ([("N", 1024), ("M", 4)], [("N", 1024), ("N", 1024), ("CH", 4)], [("R", 1024), ("N", 4)], [("N", 4), ("CH", 2048), ("M", 4)],
+                    [("N", 600), ("M", 4)], [("N", 575), ("M", 4)]):
+            comp = {"tracks": [{"name": None, "instrument": None, "bars": [Z.bar_recipe(pat)]}]}
+            yield {"comp": comp, "bpm": 120, "repeat": 0, "apis": ["bar", "track"]}
+            yield {"comp": comp, "bpm": 120, "repeat": 1, "apis": ["track"]}
+    if 1 in shard:
         # long silences: whole bars of rest in front of a note (delta times around the 2-byte / 3-byte boundary 16384)
         for nb in (1, 14, 15, 56, 57, 58):
             bars = [Z.bar_recipe([("R", 1)]) for _ in range(nb)] + [Z.bar_recipe([("R", ["ticks", 32]), ("N", 4)])]
